@@ -38,6 +38,7 @@ void wake_mutex_waiters(const void* m) {
 int sim_mutex_lock(pthread_mutex_t* m, bool try_only) {
   Thread* me = tl_self;
   sched_point(try_only ? OP_MTRY : OP_MLOCK, m, true);
+  if (in_arena(m)) arena_check(m, sizeof(int), true);  // a mutex inside a freed object
   for (;;) {
     MutexSt* s = mutex_find(m, true);
     if (s->owner < 0) { s->owner = me->id; s->count = 1; spin_note_progress(); return 0; }
@@ -54,6 +55,7 @@ int sim_mutex_lock(pthread_mutex_t* m, bool try_only) {
 int sim_mutex_unlock(pthread_mutex_t* m) {
   Thread* me = tl_self;
   sched_point(OP_MUNLOCK, m, true);
+  if (in_arena(m)) arena_check(m, sizeof(int), true);
   MutexSt* s = mutex_find(m, false);
   if (!s || s->owner != me->id) return EPERM;
   if (--s->count == 0) { s->owner = -1; wake_mutex_waiters(m); }
